@@ -251,6 +251,7 @@ type Path struct {
 	ctx    *Ctx                    // context of the root function
 	ctxs   map[*ssa.Function]*Ctx  // context of every function activated on the path (root and inlined helpers)
 	steps  []step                  // instruction ranges in execution order
+	byInst map[int]*Ctx            // context of every activation, by activation number
 	seen   map[*ssa.BasicBlock]bool
 	busy   map[string]bool
 }
@@ -259,6 +260,7 @@ type Path struct {
 type step struct {
 	b        *ssa.BasicBlock
 	from, to int
+	inst     int // activation the instructions belong to (0: the root function)
 }
 
 // Inlineable tells which statically called functions are spliced into their callers' paths: set by
@@ -280,6 +282,7 @@ type Ctx struct {
 	detached bool
 	bind  map[ssa.Value]*Term // parameters / free variables of an inlined helper, bound to the caller's terms
 	tag   string               // name prefix for loop-carried values and cells of an inlined helper
+	inst  int                  // activation number on the path (0: the root function)
 }
 
 func newCtx(fi *FuncInfo) *Ctx {
@@ -298,7 +301,7 @@ func (c *Ctx) clone() *Ctx {
 	for k, v := range c.memo {
 		n.memo[k] = v
 	}
-	n.bind, n.tag = c.bind, c.tag
+	n.bind, n.tag, n.inst = c.bind, c.tag, c.inst
 	return n
 }
 
@@ -828,11 +831,12 @@ type walkState struct {
 	facts  []Fact
 	steps  []step
 	done   []*Ctx // contexts of helper activations that already returned
+	ninst  int    // helper activations started so far
 }
 
-func (st walkState) withStep(b *ssa.BasicBlock, from, to int) walkState {
+func (st walkState) withStep(b *ssa.BasicBlock, from, to, inst int) walkState {
 	if to > from {
-		st.steps = append(append([]step(nil), st.steps...), step{b, from, to})
+		st.steps = append(append([]step(nil), st.steps...), step{b, from, to, inst})
 	}
 	return st
 }
@@ -848,16 +852,22 @@ func Enumerate(fn *ssa.Function) ([]*Path, error) {
 	var err error
 	emit := func(fr *frame, st walkState, end EndKind, latch *ssa.BasicBlock, ret *ssa.Return) {
 		p := &Path{Fn: fn, Blocks: st.blocks, Facts: st.facts, End: end, Latch: latch, Ret: ret, steps: st.steps,
-			ctxs: map[*ssa.Function]*Ctx{}, seen: map[*ssa.BasicBlock]bool{}}
+			ctxs: map[*ssa.Function]*Ctx{}, seen: map[*ssa.BasicBlock]bool{}, byInst: map[int]*Ctx{}}
 		for _, c := range st.done {
-			p.ctxs[c.fi.Fn] = c
+			if _, have := p.ctxs[c.fi.Fn]; !have {
+				p.ctxs[c.fi.Fn] = c // the first activation names the function's values
+			}
+			p.byInst[c.inst] = c
 		}
 		var chain []*frame
 		for x := fr; x != nil; x = x.parent {
 			chain = append(chain, x)
 		}
 		for i := len(chain) - 1; i >= 0; i-- {
-			p.ctxs[chain[i].fn] = chain[i].ctx
+			if _, have := p.ctxs[chain[i].fn]; !have {
+				p.ctxs[chain[i].fn] = chain[i].ctx
+			}
+			p.byInst[chain[i].ctx.inst] = chain[i].ctx
 		}
 		p.ctx = fr.root().ctx
 		for _, b := range st.blocks {
@@ -902,9 +912,20 @@ func Enumerate(fn *ssa.Function) ([]*Path, error) {
 			if !isFn || call.Call.IsInvoke() || len(g.Blocks) == 0 || fr.depth >= MaxInlineDepth || fr.active(g) || !Inlineable(g) {
 				continue
 			}
-			st2 := st.withStep(b, idx, i)
+			st2 := st.withStep(b, idx, i, fr.ctx.inst)
 			child := &frame{fn: g, ctx: newCtx(Info(g)), parent: fr, call: call, contBlock: b, contIdx: i + 1, depth: fr.depth + 1}
+			st2.ninst++
+			child.ctx.inst = st2.ninst
+			nth := 1
+			for _, d := range st.done {
+				if d.fi.Fn == g {
+					nth++
+				}
+			}
 			child.ctx.tag = FuncName(g) + ":"
+			if nth > 1 {
+				child.ctx.tag = fmt.Sprintf("%s~%d:", FuncName(g), nth) // a later activation of the same helper on this path
+			}
 			child.ctx.bind = map[ssa.Value]*Term{}
 			for k, prm := range g.Params {
 				if k < len(call.Call.Args) {
@@ -915,7 +936,7 @@ func Enumerate(fn *ssa.Function) ([]*Path, error) {
 			return
 		}
 		last := len(b.Instrs) - 1
-		st = st.withStep(b, idx, last+1)
+		st = st.withStep(b, idx, last+1, fr.ctx.inst)
 		switch in := b.Instrs[last].(type) {
 		case *ssa.Return:
 			if fr.parent == nil {
@@ -1103,6 +1124,23 @@ func (p *Path) Instrs(f func(ssa.Instruction)) {
 		}
 	}
 }
+
+// InstrsIn is Instrs with the evaluation context of the activation each instruction belongs to (a helper
+// spliced in twice has two activations with different parameter bindings).
+func (p *Path) InstrsIn(f func(in ssa.Instruction, c *Ctx)) {
+	for _, s := range p.steps {
+		c := p.byInst[s.inst]
+		if c == nil {
+			c = p.ctx
+		}
+		for i := s.from; i < s.to; i++ {
+			f(s.b.Instrs[i], c)
+		}
+	}
+}
+
+// Term evaluates v in this activation.
+func (c *Ctx) Term(v ssa.Value) *Term { return c.term(v) }
 
 // Calls returns the call instructions executed on the path, in order.
 func (p *Path) Calls() []*ssa.Call {
